@@ -154,24 +154,15 @@ def d9_6(ctx):
     _segment_rule(ctx)
 
 
-@rule(P, "D9.7", "T-BITS", floor=1)
+@rule(P, "D9.7", "T-WITNESS", floor=1)
 def d9_7(ctx):
-    """Port numbers are confined to the 4-bit port field (1..14) before they are OR-ed into the port byte."""
-    from ..guards import accepted_values
+    """Port numbers are confined to the 4-bit port field (1..14) before they are OR-ed into the port byte: ports 0, 15, 16, 17 (which
+    would set the extended-link bit), 31, 255 and -1 are refused, 1..14 and every port name encode to their number.  Decided by
+    folding `PortSegment._encode` on witness segments (D9.11); an earlier form traced the tests dominating `USINT.encode(port)` and
+    alarmed when the validation moved into a helper."""
+    from .driver import _segment_rule
 
-    ps = _seg(ctx, "PortSegment")
-    fn = ps.methods["_encode"]
-    g = ctx.cfg(fn)
-    uses = [n for n in g.nodes if n.kind == "stmt" and n.ast is not None and any(isinstance(c, ast.Call) and attr_path(c.func) == "USINT.encode" and c.args and atom_name(c.args[0]) == "port" for c in walk(n.ast))]
-    if len(uses) != 1:
-        ctx.undecided(ckey(ps.key + "._encode", "port-range"), fn, "port byte construction not found")
-        return
-    sp = ctx.spec("epath")["port_segment"]
-    points, accepted, conds = accepted_values(ctx, g, ps.module, "port", uses[0], extra_points=(1, sp["port_mask"] - 1, sp["port_mask"], sp["extended_link_bit"]))
-    lo, hi = 1, sp["port_mask"] - 1
-    ok = accepted is not None and all((lo <= v <= hi) == (v in accepted) for v in points)
-    ctx.check(ok, ckey(ps.key + "._encode", "port-range"), uses[0].ast, f"only ports {lo}..{hi} reach the port byte (others raise)",
-              f"port numbers are not confined to {lo}..{hi} before `USINT.encode(port)`: a port of {sp['extended_link_bit'] + 1} sets the extended-link bit and the emitted segment denotes another route (accepted sample values: {accepted})", accepted=accepted, tests=[src(t.ast) for t, _ in conds])
+    _segment_rule(ctx)
 
 
 @rule(P, "D9.8", "T-WITNESS", floor=6)
